@@ -9,7 +9,7 @@ Conventions fixed by the property text (properties.jsonl, C11):
 * Booleans are the numbers 0/1, `and` is the product, `or` is the sum, a condition is *true* when
   `Prims.truth` says so (non-zero), `not` maps true to 0 and false to 1;
 * an if-expression / if-equation takes the first branch whose condition is true, else the last one;
-* arrays are 1-based; `a:b` is the unit-step range; elements are stored column-major;
+* arrays are 1-based; `a:b` / `a:s:b` select the elements of the Modelica range; column-major storage;
 * a for-equation stands for its body instantiated for every value of `start : step : stop`;
 * a function call runs the algorithm section imperatively;
 * `der(x)` is an independent input (the symbol named `der(x)`).
@@ -76,10 +76,11 @@ def IdxE.eval (ienv : String → Option Int) : IdxE → Option Int
   | .mul a b => do let x ← a.eval ienv; let y ← b.eval ienv; pure (x * y)
   | .neg a => do let x ← a.eval ienv; pure (-x)
 
-/-- One subscript: an index or a unit-step range with optional bounds (`:` = both absent). -/
+/-- One subscript: an index or a range `lo : step : hi` with optional bounds (`:` = both absent,
+    step 1). -/
 inductive Sub
   | at (e : IdxE)
-  | range (lo hi : Option IdxE)
+  | range (lo hi : Option IdxE) (step : Int)
   deriving Repr, Inhabited
 
 /-- 0-based positions selected by one subscript along a dimension of extent `d`. -/
@@ -87,10 +88,16 @@ def subPositions (ienv : String → Option Int) (d : Nat) : Sub → Option (List
   | .at e => do
     let v ← e.eval ienv
     if 1 ≤ v ∧ v ≤ d then some [(v - 1).toNat] else none
-  | .range lo hi => do
+  | .range lo hi step => do
     let l ← match lo with | some e => e.eval ienv | none => some 1
     let h ← match hi with | some e => e.eval ienv | none => some (d : Int)
-    if 1 ≤ l ∧ h ≤ d then some ((List.range (h + 1 - l).toNat).map (fun k => (l - 1).toNat + k)) else none
+    if step ≤ 0 then none        -- only ascending ranges are range-checked by the generator
+    else if h < l then some []   -- an empty range selects nothing, whatever its bounds
+    else
+      let n := ((h - l) / step).toNat       -- index of the last selected element
+      if 1 ≤ l ∧ l + n * step ≤ d then
+        some ((List.range (n + 1)).map (fun k => (l - 1).toNat + k * step.toNat))
+      else none
 
 /-- Column-major positions of `name[subs]` in a symbol of dimensions `dims`. -/
 def positions (ienv : String → Option Int) (dims : List Nat) (subs : List Sub) : Option (List Nat) :=
